@@ -358,7 +358,8 @@ class kLeastAbsErrors(pathmodel.AbstractPathModelDAG):
             self.edge_indexes_basic,
             name_prefix="ee",
             lb=0,
-            ub=self.w_max,
+            # All the given weights can go through the same edge
+            ub=max(self.w_max, sum(self.solution_weights_superset)),
             var_type="integer" if self.weight_type == int else "continuous",
         )
 
